@@ -97,10 +97,23 @@ def settings_reads(fn):
         if not is_ref_to(n.get("obj"), sdecl):
             continue
         leaves = concat_leaves(n["args"][0])
-        if len(leaves) != 2 or not is_ref_to(leaves[0], gdecl) or not (const_str(leaves[1]) or "").startswith("/"):
+
+        def text_of(x):
+            # constant text of a piece, through Qt string wrappers and parameters of a spliced accessor lambda
+            x = skip_copies(deref_local(fn, x))
+            c = const_str(x)
+            if c is not None:
+                return c
+            if isinstance(x, dict) and x.get("k") == "construct" and len(x.get("args", [])) == 1:
+                return text_of(x["args"][0])
+            if isinstance(x, dict) and x.get("k") in ("char", "int") and x.get("v") is not None:
+                return chr(x["v"])
+            return None
+        rest = [text_of(x) for x in leaves[1:]]
+        if len(leaves) < 2 or not is_ref_to(leaves[0], gdecl) or any(r is None for r in rest) or not "".join(rest).startswith("/"):
             raise AnalysisBroken("settings.value() key %s not of the form group + \"/key\"" % describe(n["args"][0]))
-        key = const_str(leaves[1])[1:]
-        dflt = n["args"][1] if len(n["args"]) > 1 else None
+        key = "".join(rest)[1:]
+        dflt = skip_copies(deref_local(fn, n["args"][1])) if len(n["args"]) > 1 else None
         dv = None
         if dflt is not None and dflt.get("k") != "defaultarg":
             x = dflt
@@ -108,9 +121,17 @@ def settings_reads(fn):
                 x = skip_copies(x["args"][0])
             dv = const_int(x) if const_int(x) is not None else const_str(x)
         p = fn.nodes.get(fn.parent.get(n["id"]))
-        conv = (p.get("callee") or "").split("::")[-1] if p is not None and p.get("k") == "call" and p.get("ck") == "member" else None
+        base = n
+        if p is not None and p.get("k") == "inl_return":
+            # the read sits in an accessor (lambda / helper) that was spliced in: the conversion is applied to its call
+            for a_ in fn.ancestors(n):
+                if a_.get("k") == "call" and a_.get("inl_body") is not None:
+                    base = a_
+                    p = fn.nodes.get(fn.parent.get(a_["id"]))
+                    break
+        conv = (p.get("callee") or "").split("::")[-1] if p is not None and p.get("k") == "call" and p.get("ck") == "member" and skip_copies(p.get("obj")).get("id") == base["id"] else None
         var = None
-        top = p if conv else n
+        top = p if conv else base
         for a in fn.ancestors(top):
             if a.get("k") == "decl":
                 var = a["vars"][0]["decl"]
@@ -426,6 +447,11 @@ def one_line(ck, fn):
     # the stripping lambda
     lam = [x for x in walk(call["FunctionFormatter"]) if x.get("k") == "lambda"]
     lf = F.fns.get(lam[0]["fn"]) if lam else None
+    if lf is None:
+        # a named function handed to the FunctionFormatter instead of a lambda
+        fr = [x for x in walk(call["FunctionFormatter"]) if x.get("k") == "ref" and x.get("dk") == "func" and x.get("fn") in F.fns]
+        if len(fr) == 1 and F.fns[fr[0]["fn"]].body is not None and len(F.fns[fr[0]["fn"]].params) == 1:
+            lf = F.fns[fr[0]["fn"]]
     if lf is None:
         ck.ob("C19-O3", sitestr(fn, call["FunctionFormatter"]), None, "the stripping formatter is not a lambda")
     else:
